@@ -643,7 +643,7 @@ class Aspire:
         aspire._checkpoint_defaults = {
             "path": file_path,
             "every": 1,
-            "save_config": False,
+            "save_config": True,
             "save_flow": False,
             "saved_config": False,
             "saved_flow": False,
